@@ -206,6 +206,16 @@ impl S {
                         self.act(format!("invalid variant (fresh): timeout carrying a forged QC of round {}", fr));
                         self.p.send(donor, &ConsensusMessage::Timeout(t)).await;
                     }
+                    // a non-member's validly self-signed timeout for exactly this round, before the quorum
+                    {
+                        let mut r2 = StdRng::seed_from_u64(self.rng.gen());
+                        let outsider = crypto::generate_keypair(&mut r2);
+                        let mut t = good.clone();
+                        t.author = outsider.0;
+                        t.signature = crypto::Signature::new(&t.digest(), &outsider.1);
+                        self.act("invalid variant (fresh): timeout of a non-member, validly self-signed");
+                        self.p.send(donor, &ConsensusMessage::Timeout(t)).await;
+                    }
                     // spoofed in the receiver's own name, carrying a forged QC far ahead
                     {
                         let ahead = round + self.rng.gen_range(1, 6);
@@ -709,10 +719,15 @@ pub fn corrupt(rng: &mut StdRng, p: &Puppets, m: ConsensusMessage) -> Option<(St
                 ("vote: by a non-member".into(), ConsensusMessage::Vote(v))
             }
         },
-        ConsensusMessage::Timeout(mut t) => match rng.gen_range(0, 3) {
+        ConsensusMessage::Timeout(mut t) => match rng.gen_range(0, 4) {
             0 => {
                 t.signature = flip_sig(rng, &t.signature);
                 ("timeout: signature bit flipped".into(), ConsensusMessage::Timeout(t))
+            }
+            3 => {
+                t.author = outsider.0;
+                t.signature = crypto::Signature::new(&t.digest(), &outsider.1);
+                ("timeout: by a non-member (validly self-signed)".into(), ConsensusMessage::Timeout(t))
             }
             1 => {
                 t.round = t.round.wrapping_add(1);
